@@ -2,7 +2,7 @@
    theorems of props/C11.v mention (idx_load, idx_write, idx_read, idx_getall, idx_canon,
    ii_load, ii_flatten, ...) are evaluated here unchanged. *)
 From Coq Require Import Strings.String.
-From GoCar Require Import Bytes Varint Cid Header Frame V2Header Scan Val RunScan Index IndexGen.
+From GoCar Require Import Bytes Varint Cid Header Frame V2Header Scan Val RunScan Index IndexGen Options.
 
 (* ---- decoding the case input ------------------------------------------------------------- *)
 Definition v_recs (v : val) : list irec :=
@@ -180,8 +180,13 @@ Definition prop_idxread (input obs : val) : val :=
      listing: canonical serialized bytes (on-disk codecs) / ForEachCid order (insertion index)
      getalls: per query, ascending offsets (insertion index: in GetAll order) *)
 
+(* the option values as PASSED (MaxIndexCidSize(n), possibly an explicit 0): ApplyOptions resolves a
+   zero MaxIndexCidSize to its default and caps it (Options.v resolve_max_cid); a zero
+   MaxAllowedHeaderSize stays zero *)
 Definition v_gopts (v : val) : gopts :=
-  mkgopts (vbool (vnth 0 v)) (vN (vnth 1 v)) (vbool (vnth 2 v)) (vN (vnth 3 v)).
+  mkgopts (vbool (vnth 0 v)) (vN (vnth 1 v)) (vbool (vnth 2 v)) (resolve_max_cid (vN (vnth 3 v))).
+(* UseIndexCodec(c) as passed: 0 resolves to car-multihash-index-sorted *)
+Definition v_codec (v : val) : N := resolve_codec (vN v).
 
 (* 2 plain io.Reader, 5 bufio.Reader, 6 bytes.Buffer, 7 iotest.DataErrReader (last data arrive with
    io.EOF), 8 iotest.HalfReader, 9 iotest.OneByteReader (short reads): no Seek method, so ToByteReadSeeker puts the
@@ -212,7 +217,7 @@ Definition v_index_obs (codec : N) (recs : list irec) (qs : list bytes) : val :=
     end.
 
 Definition run_idxgen_with (fx : fixes) (input : val) : val :=
-  let codec := vN (vnth 4 input) in
+  let codec := v_codec (vnth 4 input) in
   let qs := map vB (vL (vnth 5 input)) in
   if vN (vnth 0 input) =? 13 then VL [VT "err"; v_err EOther]   (* GenerateIndexFromFile on a missing path *)
   else if (vN (vnth 0 input) =? 10) || (vN (vnth 0 input) =? 11) then
@@ -242,7 +247,7 @@ Definition fail3 (clause cls : string) : val := VL [VT "FAIL"; VT clause; VT cls
 Definition prop_idxgen (input obs : val) : val :=
   let kind := vN (vnth 0 input) in
   let o := v_gopts (vnth 1 input) in
-  let codec := vN (vnth 4 input) in
+  let codec := v_codec (vnth 4 input) in
   let qs := map vB (vL (vnth 5 input)) in
   let expect := vnth 6 input in
   let cls := class_of_kind kind in
@@ -397,7 +402,7 @@ Definition gbig_expected (input : val) : val :=
   let o := v_gopts (vnth 1 input) in
   let d := vnth 2 input in
   let hlen := vN (vnth 3 input) in
-  let codec := vN (vnth 4 input) in
+  let codec := v_codec (vnth 4 input) in
   let samples := vL (vnth 5 input) in
   let bs := gbig_blocks d in
   let keys := gbig_keys hlen bs in
